@@ -12,6 +12,7 @@ def config(T):
         "C11": dict(pkg="c11", tests=[T("TestPagination", 6000, 240000, sq=4, st=16)]),
         "C12": dict(pkg="c12", tests=[T("TestShardLimit", 2400, 64000, sq=4, st=16)]),
         "C13": dict(pkg="c13", tests=[T("TestCodec", 6000, 300000, sq=4, st=16), T("TestProtoFilter", 3000, 100000, sq=2, st=8)]),
+        "C14": dict(pkg="c14", tests=[T("TestAdvertised", 600, 24000, sq=4, st=16)]),
         "C15": dict(pkg="c15", tests=[T("TestPinned"), T("TestDocuments", 12000, 600000, sq=4, st=16), T("TestBombs", 200, 2000, sq=2, st=4),
                                       T("TestEnvelopes", 600, 20000, sq=2, st=8, race=True), T("TestHTTP", 800, 20000, sq=2, st=4),
                                       T("TestPanicContained", 150, 3000, sq=1, st=4, race=True), T("TestCancellation", 200, 4000, sq=1, st=1)]),
